@@ -2,9 +2,12 @@ package worldr
 
 import (
 	"bytes"
+	"context"
 	"encoding/base64"
 	"encoding/hex"
 	"fmt"
+	"github.com/google/gce-tcb-verifier/cmd/output"
+	"github.com/google/gce-tcb-verifier/gcetcbendorsement"
 	"os"
 	"path/filepath"
 	"strings"
@@ -553,6 +556,31 @@ func runC16(r *core.Run) {
 	}
 	if len(names) != 2*(2*len(images.Small())+1) {
 		r.Fail("fetch-of-non-measurement-url", "name-collision", "object names of distinct measurements collide (%d names)", len(names))
+	}
+	// (f) the validator closure and SevValidate discover the endorsement over the network too: they
+	// may only ask for a URL derived from a full-length measurement
+	if r.Chance(25, "validator-fetch?") {
+		vnet := NewSimNet(r)
+		l := []int{0, 1, 47, 49, 96, 48}[r.Intn(6, "report-measurement-len")]
+		m := bytes.Repeat([]byte{0x3c}, l)
+		if l == 48 {
+			m = meas
+		}
+		entry := "closure"
+		if r.Bool("validator-entry") {
+			entry = "SevValidate"
+			gcetcbendorsement.SevValidate(output.NewContext(context.Background(), &output.Options{Quiet: true}), SnpAttestation(m, nil),
+				&gcetcbendorsement.SevValidateOptions{RootsOfTrust: Pool(a.Root), Now: a.A.Now, Getter: vnet})
+		} else {
+			verify.SNPValidateFunc(&verify.Options{RootsOfTrust: Pool(a.Root), Now: a.A.Now, Getter: vnet})(SnpAttestation(m, nil), nil)
+		}
+		r.Eval(fmt.Sprintf("validator-fetch|%s|len=%d|req=%d", entry, l, len(vnet.Requests)), l != 48)
+		for _, u := range vnet.Requests {
+			if l != 48 || u != SnpURL(m) {
+				r.Fail("fetch-of-non-measurement-url", "validator/"+entry, "%s asked the network for %s on a report whose measurement has %d bytes", entry, shortURL(u), l)
+			}
+		}
+		r.Probe("validator-fetch")
 	}
 	r.Sample = map[string]any{"sources": where, "requests": net.Requests, "error": fmt.Sprint(err), "expected": wantWhat}
 }
